@@ -56,11 +56,12 @@ _SAFE_BUILTINS = {
 
 _SAFE_METHODS = {
     str: {"split", "startswith", "endswith", "lower", "upper", "replace", "strip", "join", "format", "rsplit", "partition"},
-    list: {"index", "count", "copy"},
+    # mutators are allowed: every value here is a model value owned by the evaluator
+    list: {"index", "count", "copy", "append", "insert", "pop", "extend", "remove", "reverse", "sort"},
     tuple: {"index", "count"},
-    set: {"copy", "union", "intersection", "difference", "issubset", "issuperset", "pop"},
-    frozenset: {"copy", "union", "intersection", "difference", "issubset", "issuperset"},
-    dict: {"get", "keys", "values", "items", "copy"},
+    set: {"copy", "union", "intersection", "difference", "issubset", "issuperset", "pop", "add", "discard", "remove", "update", "isdisjoint"},
+    frozenset: {"copy", "union", "intersection", "difference", "issubset", "issuperset", "isdisjoint"},
+    dict: {"get", "keys", "values", "items", "copy", "pop", "update", "setdefault"},
 }
 
 
@@ -115,7 +116,11 @@ class MiniEval:
         kwargs = {}
         for k in n.keywords:
             if k.arg is None:
-                raise Unsupported("**kwargs")
+                d = self.ev(k.value)
+                if not isinstance(d, dict):
+                    raise Unsupported("**kwargs of a non-dict")
+                kwargs.update(d)
+                continue
             kwargs[k.arg] = self.ev(k.value)
         if not callable(f):
             raise Unsupported(f"call of non-callable {norm(n.func)}")
@@ -222,6 +227,10 @@ class MiniEval:
                 return a ^ b
             if isinstance(n.op, ast.FloorDiv):
                 return a // b
+            if isinstance(n.op, ast.Div):
+                return a / b
+            if isinstance(n.op, (ast.LShift, ast.RShift)):
+                return a << b if isinstance(n.op, ast.LShift) else a >> b
             if isinstance(n.op, ast.Mod):
                 return a % b
             if isinstance(n.op, ast.Pow):
@@ -339,6 +348,33 @@ class BlockInterp:
     def env(self):
         return self.me.env
 
+    def make_closure(self, fdef):
+        outer = self
+
+        def closure(*args, **kwargs):
+            a = fdef.args
+            names = [x.arg for x in a.posonlyargs + a.args]
+            env = dict(outer.me.env)  # late binding of the enclosing scope (read-only)
+            defaults = [None] * (len(names) - len(a.defaults)) + list(a.defaults)
+            for nm, d in zip(names, defaults):
+                if d is not None:
+                    env[nm] = outer.me.ev(d)
+            for nm, v in zip(names, args):
+                env[nm] = v
+            for k, v in kwargs.items():
+                env[k] = v
+            sub = BlockInterp(env, on_call=outer.on_call, on_raise=outer.on_raise, max_steps=outer.max_steps)
+            sub.me.env[fdef.name] = closure
+            r = sub.run(fdef.body)
+            outer.steps += sub.steps
+            if isinstance(r, tuple) and r[0] == "return":
+                return r[1]
+            if isinstance(r, tuple) and r[0] == "raise":
+                raise ModelRaise(r[1] or "Exception", "raised in nested function")
+            return None
+
+        return closure
+
     def run(self, stmts):
         for st in stmts:
             self.steps += 1
@@ -375,6 +411,58 @@ class BlockInterp:
             return "next"
         if isinstance(st, ast.Pass):
             return "next"
+        if isinstance(st, ast.FunctionDef):
+            self.me.env[st.name] = self.make_closure(st)
+            return "next"
+        if isinstance(st, (ast.Import, ast.ImportFrom)):
+            table = self.me.env.get("__imports__", {})
+            for al in st.names:
+                nm = al.asname or al.name.split(".")[0]
+                key = al.name if isinstance(st, ast.Import) else f"{st.module}.{al.name}"
+                if key in table:
+                    v = table[key]
+                elif al.name in table:
+                    v = table[al.name]
+                else:
+                    raise Unsupported(f"import of {key}")
+                if isinstance(v, ModelRaise):
+                    raise v
+                self.me.env[nm] = v
+            return "next"
+        if isinstance(st, ast.Try):
+            try:
+                r = self.run(st.body)
+            except ModelRaise as e:
+                for h in st.handlers:
+                    names = []
+                    if h.type is None:
+                        names = [e.kind]
+                    elif isinstance(h.type, ast.Tuple):
+                        names = [norm(x).split(".")[-1] for x in h.type.elts]
+                    else:
+                        names = [norm(h.type).split(".")[-1]]
+                    if e.kind in names or "Exception" in names:
+                        if h.name:
+                            self.me.env[h.name] = e
+                        r = self.run(h.body)
+                        break
+                else:
+                    raise
+            else:
+                if r == "next":
+                    r = self.run(st.orelse)
+            if st.finalbody:
+                r2 = self.run(st.finalbody)
+                if r2 != "next":
+                    return r2
+            return r
+        if isinstance(st, ast.With):
+            for item in st.items:
+                cm = self.me.ev(item.context_expr)
+                val = cm.__enter__() if hasattr(cm, "__enter__") else cm
+                if item.optional_vars is not None:
+                    self.me._bind(item.optional_vars, val)
+            return self.run(st.body)
         if isinstance(st, ast.Continue):
             return "continue"
         if isinstance(st, ast.Break):
